@@ -35,6 +35,9 @@ def dispatch(pid, tier, replay):
     if pid == "C20":
         import session_checks
         return session_checks.c20(tier)
+    if pid == "C19":
+        import fill_checks
+        return fill_checks.c19(tier)
     raise common.MachineryError("no check for " + pid)
 
 
